@@ -20,9 +20,16 @@ integral) x every container type of ``bin_range`` (tuple, list, ndarray) x ``fil
 alphabet as list / tuple / ndarray), each followed by every operation sequence of length <= 1 over the full alphabet
 (thorough: also length 2 over the reduced alphabet) and the checked final reads.  All forms describe the same edge
 sequence, so the reference is unchanged.  ``rebin`` takes its edges as list, tuple and ndarray as well.
+
+The warnings filter of the caller is an environment answer of its own: every read also exists as a read with warnings escalated to
+errors (``python -W error`` / ``warnings.simplefilter("error")``: the container warns when all pending entries are whole numbers, so
+such a read may end with a raised ``Warning`` instead of a value) and as a read with every warning recorded (``"always"``).  A read
+that returns is compared as usual; a read that raises a ``Warning`` is an accepted answer that must leave the contents untouched:
+every later read - inside the sequence and in the final read phase (ordinary filter) - is compared with the unchanged reference.
 """
 import collections
 import itertools
+import warnings
 
 import numpy as np
 
@@ -36,6 +43,7 @@ RULE = (
     "batch + scalars + one batch with the whole alphabet, reads of data/underflow/overflow/n_entries/raw_data, rebin to 3 "
     "targets (edges as list; as tuple / ndarray outside the reduced alphabet); second family: every constructor form x "
     "container type of bin_edges x container type of bin_range x fill_data form, followed by every sequence of length <= 1; "
+    "every read also under the warnings filters 'error' (a raised Warning is an accepted answer of that read, the reference is unchanged) and 'always' (recorded); "
     "every read inside the sequence and 5 final reads (underflow first) are compared with the multiset reference, "
     "plus underflow + sum(data) + overflow == n_entries == number filled.  states = distinct reference states (binning, "
     "current edges, count vector, number of entries); non-trivial case = distinct (binning, op pattern with each entry "
@@ -49,10 +57,12 @@ ASSUMPTIONS = [
     "raw_data is compared as a multiset (the statement does not fix an order)",
     "finite entries only; set_bins (manual heights) is not part of the statement and is not generated",
     "rebin changes the number of bins freely (no uncertainty sources are declared in this check)",
+    "a read issued while warnings are escalated to errors may raise an exception that is a Warning (the container's note about whole-number entries) instead of returning; nothing else about it is prescribed, but like any read it must not change what later reads return; fills and rebins never process entries and are issued under the ordinary filter",
     "constructor forms: bin_edges / bin_range / fill_data are sized containers (list, tuple, ndarray) of exactly representable numbers; the inner-edge form is generated with at least one inner edge; all forms of one binning denote the same full edge sequence [low] + inner + [high]; the caller's containers are not modified afterwards (no aliasing question is asked)",
 ]
 
 READS = ("data", "underflow", "overflow", "n_entries", "raw_data")
+READ_FILTERS = collections.OrderedDict([("E", "error"), ("R", "always")])  # warnings filter in effect during a read (none: the caller's)
 FINAL_READS = ("underflow", "overflow", "n_entries", "raw_data", "data")
 VALUATIONS = ((1.0, 0.0), (2.0, -1.5), (0.25, 10.0))  # affine maps x -> s x + t, exact in binary floating point
 NSHARD = 16
@@ -176,6 +186,9 @@ class Config(object):
 
         for r in READS:
             add(("read", r), True)
+        for flt in READ_FILTERS:  # the same reads under another warnings filter
+            for r in READS:
+                add(("read", r, flt), flt == "E" and r == "data")
         for tg in self.targets:
             add(("rebin", tg), True)
         for tg in self.targets:  # container type of the new edges
@@ -201,7 +214,9 @@ class Config(object):
         """symbolic op -> (kind, a, b) with concrete values"""
         op = tuple(op)
         if op[0] == "read":
-            return (1, op[1], None)
+            if len(op) > 2 and op[2] not in READ_FILTERS:
+                raise ValueError(op)
+            return (1, op[1], op[2] if len(op) > 2 else None)
         if op[0] == "rebin":
             how = op[2] if len(op) > 2 else "L"
             if how not in ("L", "T", "A"):
@@ -332,6 +347,13 @@ def _read(c, name):
     return float(v)
 
 
+def _read_filtered(c, name, flt):
+    """the same read while the warnings filter `flt` is in effect ('E': warnings are errors, 'R': every warning is recorded)"""
+    with warnings.catch_warnings(record=(flt == "R")):
+        warnings.simplefilter(READ_FILTERS[flt])
+        return _read(c, name)
+
+
 def _expected(ref, name, cnt=None):
     under, bins, over = cnt if cnt is not None else ref.counts()
     if name == "data":
@@ -360,9 +382,28 @@ def execute(cfg, cops, res=None, stop_at_first=True, variant=None):
     ref = cfg.make_ref(variant)
     nev = 0
     cnt = None
+    failed = []  # positions of the reads that ended with a raised Warning (error filter)
     for pos, (kind, a, b) in enumerate(cops):
         try:
-            if kind == 0:
+            if kind == 1 and b is not None:
+                try:
+                    act = _read_filtered(c, a, b)
+                except Warning as w:
+                    if b != "E":
+                        raise
+                    failed.append(pos)
+                    obs.append("raised:" + type(w).__name__)  # an accepted answer; the reference does not change
+                    continue
+                exp = _expected(ref, a)
+                nev += 1
+                obs.append(act)
+                if failed and res is not None:
+                    res.facts["read-after-failed-read:in-sequence"] += 1
+                if act != exp:
+                    viol.append((pos, a, exp, act, "wrong-value"))
+                    if stop_at_first:
+                        break
+            elif kind == 0:
                 _do_fill(c, a, b)
                 ref.fill(b)
             elif kind == 2:
@@ -373,12 +414,14 @@ def execute(cfg, cops, res=None, stop_at_first=True, variant=None):
                 exp = _expected(ref, a)
                 nev += 1
                 obs.append(act)
+                if failed and res is not None:
+                    res.facts["read-after-failed-read:in-sequence"] += 1
                 if act != exp:
                     viol.append((pos, a, exp, act, "wrong-value"))
                     if stop_at_first:
                         break
         except Exception as e:  # noqa: BLE001 - every generated operation is valid under the statement
-            what = ("fill", "read:" + str(a), "rebin")[kind]
+            what = ("fill", "read:" + str(a) + ("" if kind != 1 or b is None else ":" + b), "rebin")[kind]
             viol.append((pos, "op:" + what, "no exception", "%s: %s" % (type(e).__name__, str(e)[:120]), "exception:" + type(e).__name__))
             break
     if not viol:
@@ -404,6 +447,14 @@ def execute(cfg, cops, res=None, stop_at_first=True, variant=None):
             if not (tot == got["n_entries"] == float(len(ref.entries))):
                 viol.append((len(cops) + len(FINAL_READS), "underflow+sum(data)+overflow", float(len(ref.entries)), tot, "wrong-value"))
     if res is not None:
+        if failed:
+            res.facts["read-under-error-filter:raised"] += len(failed)
+            if len(failed) > 1:
+                res.facts["read-under-error-filter:raised-more-than-once"] += 1
+            if not viol:  # (the final reads were all made)
+                res.facts["read-after-failed-read:final"] += 1
+                if failed[-1] == len(cops) - 1:
+                    res.facts["read-after-failed-read:directly"] += 1
         res.evaluations += nev
         res.transitions += len(cops)
         res.executions += 1
@@ -536,8 +587,8 @@ def _bound_main(lim, n, seed):
         "8 binnings (single bin, zero-width inner / first / last bin, constructor-filled, uniform via n_bins+bin_range, "
         "non-uniform, inner-edge specification) x ALL operation sequences of length <= %d over the full alphabet (fills: every "
         "multiset of size <= 2 over 9-17 entry values incl. every edge and its two floating-point neighbours, empty, scalars, "
-        "whole alphabet; 5 reads; 3 rebin targets)%s + all sequences of length <= %d over the reduced alphabet (single entries, "
-        "duplicated edges, empty, scalar, whole alphabet, reads, rebins); %d sequences, each followed by 5 checked reads; "
+        "whole alphabet; 5 reads x warnings filter {the caller's, 'error' (a raised Warning is an accepted answer), 'always'}; 3 rebin targets)%s + all sequences of length <= %d over the reduced alphabet (single entries, "
+        "duplicated edges, empty, scalar, whole alphabet, reads, the read of data under the 'error' filter, rebins); %d sequences, each followed by 5 checked reads; "
         "valuation %d (affine map of edges and entries)"
         % (
             lim[0],
@@ -611,7 +662,7 @@ def _minimise(cfg, sops, observable, mode, _violates):
                     changed = True
     # canonicalise: plain lists where possible, and the first entry value (in ascending order) that still violates
     for i, o in enumerate(sops):
-        if o[0] == "rebin" and len(o) > 2:
+        if o[0] in ("rebin", "read") and len(o) > 2:  # plain edge list / the caller's warnings filter where possible
             trial = sops[:i] + [[o[0], o[1]]] + sops[i + 1 :]
             if _violates(cfg, trial, observable, mode):
                 sops = trial
@@ -816,7 +867,12 @@ def run_job(spec):
                 pending = True
                 if near_edge[i]:
                     near = True
+            elif k == 2 and len(ops[i]) > 2 and ops[i][2] == "E":
+                # (whether such a read processes the pending entries is its own business: it may raise instead)
+                f["read-under-error-filter:" + ("entries-pending" if pending else "nothing-pending")] += 1
             elif k == 2:
+                if len(ops[i]) > 2:
+                    f["read-under-filter:" + READ_FILTERS[ops[i][2]]] += 1
                 if pending:
                     f["first-read-after-fill:" + ops[i][1]] += 1
                     processed = True
@@ -875,6 +931,13 @@ def vacuity_guards(tot, tier):
     yield "entries exactly on an edge / on the last edge / on a repeated edge filled", all(f.get(k, 0) > 0 for k in ("entry:on-edge", "entry:on-last-edge", "entry:on-repeated-edge"))
     yield "empty, scalar and ndarray batches filled", all(f.get(k, 0) > 0 for k in ("fill:empty", "fill:scalar", "fill:ndarray"))
     yield "a second fill after a read", f.get("fill:after-read", 0) > 0
+    yield "reads under the 'error' and the 'always' warnings filter, with and without pending entries", all(
+        f.get(k, 0) > 0 for k in ("read-under-error-filter:entries-pending", "read-under-error-filter:nothing-pending", "read-under-filter:always")
+    )
+    yield "reads that raised a Warning (once and more than once in a sequence), reads inside the sequence after such a read, final reads directly after one", all(
+        f.get(k, 0) > 0
+        for k in ("read-under-error-filter:raised", "read-under-error-filter:raised-more-than-once", "read-after-failed-read:in-sequence", "read-after-failed-read:directly")
+    )
     yield "rebin with pending and with processed entries", f.get("rebin:pending", 0) > 0 and f.get("rebin:processed", 0) > 0
     yield "underflow, overflow and several bins populated in the outcomes", len(tot.outcomes) > 20
     yield "rebin with the new edges as tuple and as ndarray", all(f.get("rebin:edges-as:" + t, 0) > 0 for t in "TA")
